@@ -48,8 +48,10 @@ func ParseAndValidateServerName(serverName ServerName) (host string, port int, v
 	}
 
 	// try parsing as an IPv4 address
+	// (net.ParseIP also accepts IPv4-mapped IPv6 such as ::ffff:1.2.3.4, for which
+	// To4() is non-nil; IPv6 addresses are only valid in brackets.)
 	ip := net.ParseIP(host)
-	if ip != nil && ip.To4() != nil {
+	if ip != nil && ip.To4() != nil && !strings.Contains(host, ":") {
 		valid = true
 		return
 	}
